@@ -54,7 +54,7 @@ Spec == Init /\ [][Next]_mcvars
 View == <<cfg, mode, wd, rn, dirs, files, anon, n>>
 
 (* The property on the design: whatever a command touches is inside the root. *)
-StepConfined == [][ \A i \in 1..Len(last'.acc) : Inside(LocOf(last'.acc[i][2])) ]_mcvars
+StepConfined == [][ Confined(last'.acc, <<>>) ]_mcvars
 (* spec -> code: every transition in which the model touches the tree or answers positively is printed as a
    session (the commands leading to the state it starts from, then the command) for replay on the real server. *)
 EmitCover == ~(last'.ok \/ last'.acc # <<>>) \/ PrintT(<<"BEH", ToJson([anon |-> anon, hist |-> hist'])>>)
